@@ -268,3 +268,140 @@ func init() {
 		return in.bytesFromTerms(in.hashUF("hash20", a[0], 20), "hash")
 	})
 }
+
+// ---- protobuf marshalling as boxing (DESIGN §3) ----
+
+// deepSnapshot copies a value following pointers and slices, so that a box is immune to later
+// mutation of the message it was made from.
+func (in *Interp) deepSnapshot(v Value, depth int, seen map[*Object]*Object) Value {
+	if depth > 16 {
+		in.unsupported("deepSnapshot: structure too deep")
+	}
+	switch x := v.(type) {
+	case *Pointer:
+		if x == nil {
+			return x
+		}
+		if len(x.path) == 0 {
+			if o, ok := seen[x.obj]; ok {
+				return &Pointer{obj: o}
+			}
+			no := in.newObject(x.obj.typ, nil, x.obj.name+"'")
+			seen[x.obj] = no
+			no.v = in.deepSnapshot(x.obj.v, depth+1, seen)
+			return &Pointer{obj: no}
+		}
+		// interior pointer: snapshot the pointee as a fresh root object
+		no := in.newObject(nil, in.deepSnapshot(in.navigate(x), depth+1, seen), "snap")
+		return &Pointer{obj: no}
+	case *StructV:
+		n := &StructV{f: make([]Value, len(x.f))}
+		for i, f := range x.f {
+			n.f[i] = in.deepSnapshot(f, depth+1, seen)
+		}
+		return n
+	case *ArrayV:
+		n := &ArrayV{e: make([]Value, len(x.e))}
+		for i, f := range x.e {
+			n.e[i] = in.deepSnapshot(f, depth+1, seen)
+		}
+		return n
+	case *SliceV:
+		if x.box != nil || x.base == nil {
+			return x
+		}
+		arr := in.arrOf(x)
+		hi := x.off + x.cap
+		if x.n.IsConst() {
+			hi = x.off + in.constIdx(x.n)
+		}
+		na := &ArrayV{e: make([]Value, hi-x.off)}
+		for i := range na.e {
+			na.e[i] = in.deepSnapshot(arr.e[x.off+i], depth+1, seen)
+		}
+		o := in.newObject(nil, na, "snap-slice")
+		return &SliceV{base: &Pointer{obj: o}, n: x.n, cap: len(na.e)}
+	case *IfaceV:
+		if x.T == nil {
+			return x
+		}
+		return &IfaceV{T: x.T, V: in.deepSnapshot(x.V, depth+1, seen)}
+	}
+	return v
+}
+
+func (in *Interp) nilErrorI() Value { return &IfaceV{} }
+
+func (in *Interp) marshalModel(msg Value) Value {
+	iv, ok := msg.(*IfaceV)
+	if !ok {
+		in.unsupported("Marshal of non-interface")
+	}
+	if iv.T == nil {
+		return TupleV{in.newBox(&StructV{}, types.Typ[types.Invalid], "nil"), in.nilErrorI()}
+	}
+	p, ok := iv.V.(*Pointer)
+	if !ok {
+		in.unsupported("Marshal of non-pointer message")
+	}
+	pt, _ := iv.T.Underlying().(*types.Pointer)
+	if pt == nil {
+		in.unsupported("Marshal of non-pointer message type")
+	}
+	var val Value = (*Pointer)(nil)
+	if p != nil {
+		val = in.deepSnapshot(in.navigate(p), 0, map[*Object]*Object{})
+	} else {
+		// marshalling a nil message yields empty bytes
+		return TupleV{&SliceV{n: goInt(0)}, in.nilErrorI()}
+	}
+	return TupleV{in.newBox(val, pt.Elem(), typeKey(pt.Elem())), in.nilErrorI()}
+}
+
+func (in *Interp) unmarshalModel(bz Value, ptr Value) Value {
+	s := bz.(*SliceV)
+	iv, _ := ptr.(*IfaceV)
+	if (s.base == nil && s.box == nil) || iv == nil || iv.T == nil {
+		return in.nilErrorI()
+	}
+	p, ok := iv.V.(*Pointer)
+	if !ok || p == nil {
+		return in.opaqueError("unmarshal into nil")
+	}
+	pt, _ := iv.T.Underlying().(*types.Pointer)
+	if s.box == nil {
+		if s.n.IsConst() && in.constIdx(s.n) == 0 {
+			// empty bytes decode to the zero message
+			in.store(p, in.zero(pt.Elem()))
+			return in.nilErrorI()
+		}
+		in.unsupported("Unmarshal of raw (non-boxed) bytes into " + typeKey(iv.T))
+	}
+	if !types.Identical(s.box.typ, pt.Elem()) {
+		// decoding bytes of one message type as another: outcome unknown -> error or garbage; model as error
+		if in.decide(in.fresh("zz.unmarshal.crosstype.fails", BoolSort)) {
+			return in.opaqueError("unmarshal: wrong message type")
+		}
+		in.unsupported("cross-type Unmarshal succeeded (" + typeKey(s.box.typ) + " as " + typeKey(pt.Elem()) + ")")
+	}
+	in.store(p, in.deepSnapshot(s.box.val, 0, map[*Object]*Object{}))
+	return in.nilErrorI()
+}
+
+func init() {
+	registerIntrinsic("box.Marshal", func(in *Interp, fn *ssa.Function, a []Value) Value { return in.marshalModel(a[0]) })
+	registerIntrinsic("box.Unmarshal", func(in *Interp, fn *ssa.Function, a []Value) Value { return in.unmarshalModel(a[0], a[1]) })
+	registerIntrinsic("hash32.err", func(in *Interp, fn *ssa.Function, a []Value) Value {
+		// methods: receiver first, bytes last
+		return TupleV{in.bytesFromTerms(in.hashUF("hash32", a[len(a)-1], 32), "hash"), in.nilErrorI()}
+	})
+	// hash of a message reached through a pointer receiver (e.g. (*CertificateResult).Hash)
+	registerIntrinsic("hashdeep32", func(in *Interp, fn *ssa.Function, a []Value) Value {
+		p, _ := a[0].(*Pointer)
+		var v Value = p
+		if p != nil {
+			v = in.deepSnapshot(in.navigate(p), 0, map[*Object]*Object{})
+		}
+		return in.bytesFromTerms(in.hashUF("hashdeep32:"+fn.String(), v, 32), "hash")
+	})
+}
